@@ -13,12 +13,14 @@ TECHNIQUE = "contracts on the elaborated netlist of generated designs (real mana
 
 
 def configs(tier):
-    return corelib.design_configs(tier, schedulers=("eager", "rr")) + schedfn.configs(tier)
+    return corelib.design_configs(tier, schedulers=("eager", "rr")) + schedfn.configs(tier) + schedfn.configs_rr(tier, small=True)
 
 
 def run(cfg, ctx):
     if cfg.get("kind") == "schedfn":
         return schedfn.run(PROPERTY, cfg, ctx)
+    if cfg.get("kind") == "schedfn_rr":
+        return schedfn.run_rr(PROPERTY, cfg, ctx)
     corelib.run_core(PROPERTY, cfg, ctx)
 
 
